@@ -857,6 +857,9 @@ func descD(v ssa.Value, depth int) string {
 			if d, ok := computedIntResult(c, x.Index, depth); ok {
 				return d
 			}
+			if d, ok := forwardedResult(c, x.Index, depth); ok {
+				return d
+			}
 		}
 		if nx, ok := x.Tuple.(*ssa.Next); ok {
 			if r, ok := nx.Iter.(*ssa.Range); ok {
@@ -2136,4 +2139,56 @@ func countedFrom(phi *ssa.Phi) (int64, bool) {
 func isBoolType(t types.Type) bool {
 	b, ok := t.Underlying().(*types.Basic)
 	return ok && b.Info()&types.IsBoolean != 0
+}
+
+// forwardedResult: result k of an unexported helper that only hands on what other calls gave it
+// (`func (ic *Credential) indexAndBuilder() (int, *Builder, error) { i, err := ic.Index(); ...; b, err := ic.consume(); ...;
+// return i, b, nil }`): when every successful return (error result nil) yields, for k, the result of one and the same
+// call, the helper's result k is named like that call's result, as it would be with the calls written at the call site.
+var forwardedBusy = map[*ssa.Function]bool{}
+
+func forwardedResult(c *ssa.Call, k, depth int) (string, bool) {
+	g := c.Call.StaticCallee()
+	if g == nil || g.Blocks == nil || depth > 20 || forwardedBusy[g] || len(forwardedBusy) > 2 || !inModuleFn(g) {
+		return "", false
+	}
+	if g.Object() == nil || g.Object().Exported() || g.Parent() != nil || isBigWrapperFn(g) || !newHelper(g) {
+		return "", false
+	}
+	res := g.Signature.Results()
+	if k >= res.Len() || res.Len() < 2 {
+		return "", false
+	}
+	ei := -1
+	for i := 0; i < res.Len(); i++ {
+		if isErrorType(res.At(i).Type()) {
+			ei = i
+		}
+	}
+	if ei < 0 || ei == k {
+		return "", false
+	}
+	forwardedBusy[g] = true
+	defer delete(forwardedBusy, g)
+	out, n := "", 0
+	bindCall(c, g, func() {
+		for _, r := range returnsOf(g) {
+			if ei >= len(r.Results) || !isNilConst(r.Results[ei]) {
+				continue // a failing return: the value that comes with it is not used by a caller that tests the error
+			}
+			d := descD(r.Results[k], depth+2)
+			if n == 0 || d == out {
+				out = d
+				if n == 0 {
+					n = 1
+				}
+			} else {
+				n = 2
+			}
+		}
+	})
+	if n != 1 || !strings.HasPrefix(out, "call:") || strings.Contains(out, "phi(") || strings.Contains(out, "arg#") {
+		return "", false
+	}
+	return out, true
 }
